@@ -252,7 +252,7 @@ deriving Repr, Inhabited
 
 def createContext (txt : Str) (offset length : Nat) : Context :=
   let beg := offset - 45
-  let e := min (offset + 45) txt.length
+  let e := min (max (offset + 45) (offset + length)) txt.length
   let s := ((txt.take e).drop beg).map (fun c => if c == '\t' || c == '\n' then ' ' else c)
   { text := "...".toList ++ s ++ "...".toList, offset := offset - beg + 3, length := length }
 
